@@ -355,6 +355,30 @@ def r_every_allow_is_consulted(r, prog):
     r.floor(1)
 
 
+def r_allow_counts_before_attribute_patching(r, prog):
+    """into_updated always runs; the attribute patcher (which turns `[allow(..)]` from an Unparsed attribute into an Allow) only runs if nothing
+    reported an error before it, and doc-comment lints are reported while parsing. So the helper that looks for allow attributes must
+    recognise both forms - a patched Allow and an Unparsed attribute whose directive is "allow" - or every path to into_updated would have
+    to pass the attribute patcher (it does not: phase gating). Otherwise a syntax error in one file un-silences the lints of all others."""
+    from mirlib import const_str
+    f = prog.fns.get('slicec::diagnostics::diagnostic::Diagnostics::into_updated::is_lint_allowed_by_attributes')
+    if f is None:
+        cands = [g for g in prog.fns.values() if g.path.startswith('slicec::diagnostics::') and '{closure' not in g.path and [c for c in g.calls() if c.name() == 'all_attributes']]
+        if len(cands) != 1:
+            raise AnchorMissing('the helper that looks a lint up in all_attributes()')
+        f = cands[0]
+    fam = [f] + [g for g in prog.fns.values() if g.path.startswith(f.path + '::{closure')]
+    kinds = {c.targs[0].rsplit('::', 1)[-1] for g in fam for c in g.calls() if c.name() == 'downcast' and c.targs and not g.blocks[c.bb].get('cleanup')}
+    names = prog.literals_of(f)      # the string literals of the helper, its closures and their promoted constants
+    if 'Allow' not in kinds:
+        raise AnchorMissing('downcast::<Allow> in %s' % f.path)
+    if 'Unparsed' in kinds and 'allow' in names:
+        r.ok('allow attributes are recognised patched (Allow) and unpatched (Unparsed with directive "allow"): suppression does not depend on the attribute patcher having run')
+    else:
+        r.finding('allow-ignored-before-attribute-patching', f.span, '%s only recognises patched Allow attributes (downcasts: %s); the attribute patcher is skipped once an error was reported, so with a syntax error in any file the allow attributes of all files stop silencing the lints reported while parsing (MalformedDocComment)' % (f.path.rsplit('::', 1)[-1], sorted(kinds)))
+    r.floor(1)
+
+
 def run(ctx):
     prog = ctx.prog
     ctx.run_rule('C13.1a', 'T1', 'Diagnostic.level written only by new and, with Allowed, inside the Lint arm of into_updated', levels.r_level_writers, prog)
@@ -366,6 +390,7 @@ def run(ctx):
     ctx.run_rule('C13.9b', 'T3', 'every allow attribute of the element, its parents and its file is consulted', r_every_allow_is_consulted, prog)
     from props import c15 as _c15
     ctx.run_rule('C13.10', 'T1', 'no lint is held back because a similar one was reported before (state that outlives the element)', _c15.r_no_first_seen_gating, prog)
+    ctx.run_rule('C13.11', 'T3', 'an allow attribute counts whether or not the attribute patcher ran (typestate of attributes against phase gating)', r_allow_counts_before_attribute_patching, prog)
     ctx.run_rule('C13.8', 'T2', 'every lint is looked up: no return before the walk over the diagnostics', r_every_lint_is_looked_up, prog)
     ctx.run_rule('C13.6', 'T10', 'file-level allow is looked up by the full path of the lint\'s span', r_file_allow_lookup, prog)
     ctx.run_rule('C13.5', 'T5', 'contained elements inherit their parent\'s attributes', r_contained_inherit_attributes, prog)
